@@ -477,6 +477,30 @@ def model_check(work, module, cfgtext, tag, workers=8, timeout_s=600, expect=Non
     return st
 
 
+def apalache_inductive(work, module, nthreads, timeout_s=900):
+    """Apalache discharges `Init => IndInv` (length 0) and `IndInv /\\ Next => IndInv'` (length 1, from IndInit = IndInv) of a small
+    unbounded-history companion model: the safety clauses then hold for histories of ANY length, for the given threads."""
+    d = '%s/ap-%s-%d' % (work, module, nthreads)
+    os.makedirs(d, exist_ok=True)
+    src = open('%s/%s.tla' % (SPEC, module)).read()
+    src = re.sub(r'ConstInit == Threads = \{[^}]*\}', 'ConstInit == Threads = {%s}' % ', '.join(str(i) for i in range(1, nthreads + 1)), src)
+    with open('%s/%s.tla' % (d, module), 'w') as f:
+        f.write(src)
+    t0 = time.time()
+    st = {'module': module, 'config': 'apalache_inductive_%d_threads' % nthreads, 'expected_violation': None, 'states': 0, 'distinct': 0, 'violated': None, 'completed': False}
+    for what, args in [('base', ['--init=Init', '--length=0']), ('step', ['--init=IndInit', '--length=1'])]:
+        r = subprocess.run(['timeout', str(timeout_s), 'apalache-mc', 'check', '--cinit=ConstInit', '--inv=IndInv', '--out-dir=' + d + '/out'] + args + [module + '.tla'], cwd=d, capture_output=True, text=True)
+        if 'The outcome is: NoError' in r.stdout:
+            continue
+        if 'The outcome is: Error' in r.stdout:
+            st['violated'] = 'IndInv is not inductive (%s)' % what
+            break
+        raise ToolError('apalache-mc failed on %s (%s): %s' % (module, what, (r.stdout + r.stderr)[-1200:]))
+    st['completed'] = st['violated'] is None
+    st['wall_s'] = round(time.time() - t0, 1)
+    return st
+
+
 def queue_drift(work, harness, cases, seed):
     """Lock-level conformance of the real scheduler queue with the L1 model SchedQueue (drift, never an alarm):
     a sample of schedules is re-run with the facade's lock log on; each lock / condvar operation is mapped to its role by
@@ -923,7 +947,8 @@ def run_conc_check(prop, tier, flags, seed, design_ref, models=(), extra_cases=N
             cases += extra_cases
         byname = {c['name']: c for c in cases}
         # ---- design level: TLC on the L1 models
-        mc = [model_check(work, m[0], m[2], m[1], timeout_s=600 if tier == 'quick' else 3600, expect=(m[3] if len(m) > 3 else None)) for m in models]
+        mc = [apalache_inductive(work, m[0], m[2]) if m[1] == 'apalache' else
+              model_check(work, m[0], m[2], m[1], timeout_s=600 if tier == 'quick' else 3600, expect=(m[3] if len(m) > 3 else None)) for m in models]
         # ---- schedules of the real code
         bound = 2 if tier == 'quick' else 3
         per_case, scheds, files = explore(work, harness, cases, 'dfs', bound, 4000 if tier == 'quick' else 40000, seed, 'dfs')
@@ -1012,7 +1037,8 @@ def run_conc_check(prop, tier, flags, seed, design_ref, models=(), extra_cases=N
             'wall_s': round(time.time() - t0, 1), 'violations': len(violations),
         }
         summary = ('%s %s: %d schedules executed over %d cases, %d distinct traces validated by TLC, design models: %s, %d new violations, %.0fs'
-                   % (prop, tier, runs, len(cases), n_valid, ', '.join('%s/%s %d states%s' % (m['module'], m['config'], m['distinct'], ' VIOLATES ' + str(m['violated']) if m['violated'] else '') for m in mc) or '-', len(violations), time.time() - t0))
+                   % (prop, tier, runs, len(cases), n_valid, ', '.join(('%s/%s inductive%s' % (m['module'], m['config'], ' FAILED: ' + str(m['violated']) if m['violated'] else '')) if m['config'].startswith('apalache') else
+                                 ('%s/%s %d states%s' % (m['module'], m['config'], m['distinct'], ' VIOLATES ' + str(m['violated']) if m['violated'] else '')) for m in mc) or '-', len(violations), time.time() - t0))
         if write:
             from seqcheck import write_evidence
             write_evidence(prop, evidence, out_lines, summary)
